@@ -23,6 +23,9 @@ pub mod c07;
 pub mod c08;
 pub mod c09;
 pub mod c10;
+#[cfg(feature = "builder")]
+pub mod c12;
+pub mod c13;
 pub mod c14;
 pub mod c15;
 #[cfg(feature = "builder")]
